@@ -67,13 +67,18 @@ func symmetries(size int) []Symmetry {
 func TransformMove(s Symmetry, m tak.Move) tak.Move {
 	var out tak.Move
 	out.X, out.Y = s(m.X, m.Y)
-	if !m.IsSlide() {
+	if !m.IsSlide() || m.Type > tak.SlideDown {
 		out.Type = m.Type
 		return out
 	}
 
 	out.Slides = m.Slides
-	dx, dy := s(m.Dest())
+	// Derive the new direction from a one-square slide in the old one,
+	// not from m.Dest(): a (malformed) slide without drops ends on its
+	// own origin and must be mapped to an equally malformed slide.
+	unit := m
+	unit.Slides = tak.MkSlides(1)
+	dx, dy := s(unit.Dest())
 	switch {
 	case dx == out.X && dy > out.Y:
 		out.Type = tak.SlideUp
